@@ -29,7 +29,8 @@ RULE = ("programs are drawn by the typed, scope-aware generator G-PROG (Hypothes
         "function templates of C11 and a seeded stride of the class-skeleton product of C12 run as plain "
         "programs (2 configurations by rotation). Interactions (G-NEST): every construct inside every "
         "other one - 19 containers x 19 containers x 25 items, 19 containers x 25 x 25 adjacent items, "
-        "four containers deep x 25 items; 2 probe schedules, one configuration by rotation (thorough: 3 "
+        "four containers deep x 25 items, 4 000 (thorough 40 000) seeded random programs 3-5 containers "
+        "deep with 1-3 items; 2 probe schedules, one configuration by rotation (thorough: 3 "
         "schedules, all 8). Data values: the same programs, the pool and the zoo with their literals "
         "rewritten into falsy values, negative numbers, empty collections or non-ASCII text (one mode by "
         "rotation); variants whose original raises are discarded.")
@@ -64,9 +65,12 @@ def _nest_shard(item):
     """G-NEST: container[container[item]] / container[item; item] / four containers deep"""
     from ..gen import nest
     from ..kit import Kit
-    idx, nshards, all8 = item
+    idx, nshards, all8 = item[:3]
     part = new_part()
     cases = list(nest.triples()) + list(nest.item_pairs()) + list(nest.deep())
+    if len(item) > 3:
+        # seeded random programs 3-5 containers deep with 1-3 items
+        cases += nest.random_deep(item[3], 4000 if not all8 else 40000)
     for k in range(idx, len(cases), nshards):
         cs, its = cases[k]
         src = nest.build(cs, its)
@@ -152,7 +156,7 @@ def plain_programs(report):
     n = env.NPROC * 2
     for part in env.pmap(_plain_shard, [progs[i::n] for i in range(n)]):
         report.absorb(part)
-    for part in env.pmap(_nest_shard, [(i, n, not quick) for i in range(n)]):
+    for part in env.pmap(_nest_shard, [(i, n, not quick, env.sub_seed(report.seed, "C01", "deep")) for i in range(n)]):
         report.absorb(part)
     for part in env.pmap(_perturbed_shard, [(i, n, not quick) for i in range(n)]):
         report.absorb(part)
